@@ -110,6 +110,9 @@ func checkC09(ctx *Ctx) {
 			runC09(ctx, cases[i])
 		}
 	})
+	for k := 0; k < 8; k++ {
+		mixedMissing(ctx)
+	}
 	// tasks that cannot be formed
 	unformable := []struct {
 		name string
@@ -127,6 +130,29 @@ func checkC09(ctx *Ctx) {
 			ctx.Res.Violate(Violation{What: fmt.Sprintf("a task that cannot be formed (%s) did not stop the workflow: exit=%d returned=%v", u.name, rr.Exit, rr.Returned), Class: "c09.unformable-silent", Witness: u.name})
 		}
 		os.RemoveAll(rr.Dir)
+	}
+}
+
+// a task with a streaming and two regular outputs whose command exits 0 without producing one of the regular ones:
+// the task fails and none of its outputs is finalized (repeated: the order in which the outputs are visited is Go's
+// map order)
+func mixedMissing(ctx *Ctx) {
+	d := &Desc{Name: "c09mixed", Max: 4, Nodes: []Node{{Name: "src", Kind: "filesource", Paths: []string{"m.txt"}},
+		{Name: "p", Kind: "proc", Cmd: "( cat {i:in} > {os:s} ; cat {i:in} > {o:a} ; true {o:b} )", Outs: map[string]string{"s": "{i:in}.s", "a": "{i:in}.a.txt", "b": "{i:in}.b.txt"}},
+		{Name: "cons", Kind: "proc", Cmd: "( cat {i:in} > {o:out} )", Outs: map[string]string{"out": "{i:in}.copy"}},
+		{Name: "usea", Kind: "proc", Cmd: "( cat {i:in} > {o:out} )", Outs: map[string]string{"out": "{i:in}.used"}}},
+		Edges: []Edge{{From: "src.out", To: "p.in"}, {From: "p.s", To: "cons.in"}, {From: "p.a", To: "usea.in"}}}
+	rr := RunWorkflow(d, RunOpts{Pre: map[string]string{"m.txt": "payload\n"}, Timeout: 15e9})
+	defer os.RemoveAll(rr.Dir)
+	ctx.Res.Eval("missing output beside a streaming one", true, "mixed-missing")
+	ctx.Res.Count("missing-output+stream")
+	if rr.Exit == 0 || rr.Returned {
+		ctx.Res.Violate(Violation{What: fmt.Sprintf("a task that did not produce a declared output (beside a streaming one) did not stop the workflow: exit=%d returned=%v", rr.Exit, rr.Returned), Class: "c09.silent", Witness: "mixed-missing"})
+	}
+	for _, p := range []string{"m.txt.a.txt", "m.txt.b.txt", "m.txt.a.txt.used"} {
+		if _, ok := readFile(rr.Dir, p); ok {
+			ctx.Res.Violate(Violation{What: fmt.Sprintf("%s exists although the task that declares m.txt.b.txt did not produce it: an output of the failed task was finalized (or a dependant ran)", p), Class: "c09.failed-output-final", Witness: "mixed-missing"})
+		}
 	}
 }
 
